@@ -147,7 +147,10 @@ def run_schedule(w, grid, rows, filters, progs, preempt, first=0):
     # afterwards every filter is evaluated once more, sequentially ("cached filters keep working");
     # logged as the calls of one more thread
     pt = len(progs) + 1
-    probe = sorted(filters)
+    # most recently completed first: those are the ones still cached (a probe in a fixed order would evict them
+    # from the small cache before reaching them)
+    recent = [progs[e['t'] - 1][e['n'] - 1] for e in evs if e['k'] == 'ret'][::-1]
+    probe = sorted(filters, key=lambda f: (recent.index(f) if f in recent else len(recent), f))
     for n, fid in enumerate(probe, 1):
         try:
             r = grid.filter(filters[fid])
@@ -338,6 +341,10 @@ def run(tier):
                 ('same_filter', [[1], [1]], True, 400 if tier == 'quick' else 2000),
                 ('evict_and_reuse', [[1, 4], [2, 1]], True, 1500 if tier == 'quick' else 8000),
                 ('three_threads', [[1], [2], [3, 1]], True, 800 if tier == 'quick' else 5000),
+                # one thread fills the cache and evicts while the other still has a compilation to do: whatever a
+                # finaliser does to the name of an evicted function is interleaved with the allocation of a new name
+                ('evict_while_other_compiles', [[1, 2, 3], [4]], True, 1200 if tier == 'quick' else 6000),
+                ('both_evict', [[1, 2, 3], [4, 2]], True, 600 if tier == 'quick' else 5000),
             ]
             traces, meta = [], []
             rep.extra['schedule_enumeration'] = {}
